@@ -4,7 +4,7 @@
    modelled is which octets are signed, how segments are split and decoded, which header decides the algorithm, the
    order of the checks and what is returned. *)
 From Coq Require Import List NArith ZArith Bool Ascii String.
-From Authlib Require Import Base.Bytes Base.Base64 Base.PyVal.
+From Authlib Require Import Base.Bytes Base.Base64 Base.PyVal Model.KeyPolicy.
 Import ListNotations.
 Open Scope string_scope.
 Open Scope list_scope.
@@ -119,7 +119,13 @@ Definition extract_header (seg : string) : jres hdict :=
 Definition extract_segment (seg what : string) : jres string :=
   match urlsafe_b64decode seg with Some d => JOk d | None => JErr (JDecode what) end.
 
-Definition deserialize_compact (allow : option (list string)) (s : string) (rawkey : pv) : jres (hdict * string) :=
+Definition crit_check (private : option (list string)) (h : hdict) : option jerr :=
+  match validate_crit (match private with Some l => l | None => [] end) h with
+  | Some k => Some (JHeaderName k)
+  | None => None
+  end.
+
+Definition deserialize_compact (allow private : option (list string)) (s : string) (rawkey : pv) : jres (hdict * string) :=
   match rsplit_dot s with
   | None => JErr (JDecode "segments")
   | Some (sinput, sigseg) =>
@@ -129,6 +135,9 @@ Definition deserialize_compact (allow : option (list string)) (s : string) (rawk
           match extract_header pseg with
           | JErr e => JErr e
           | JOk h =>
+              match crit_check private h with
+              | Some e => JErr e
+              | None =>
               match extract_segment plseg "payload" with
               | JErr e => JErr e
               | JOk payload =>
@@ -141,6 +150,7 @@ Definition deserialize_compact (allow : option (list string)) (s : string) (rawk
                           if verify alg k sinput sg then JOk (h, payload) else JErr JBadSignature
                       end
                   end
+              end
               end
           end
       end
@@ -155,13 +165,16 @@ Definition otruthy (o : option string) : bool := match o with Some s => negb (St
 Definition oval (o : option string) : string := match o with Some s => s | None => "" end.
 
 (* _validate_json_jws: Ok (merged header, valid?) *)
-Definition validate_json_jws (allow : option (list string)) (payload_segment : string) (o : sigobj) (rawkey : pv)
+Definition validate_json_jws (allow private : option (list string)) (payload_segment : string) (o : sigobj) (rawkey : pv)
   : jres (hdict * bool) :=
   if negb (otruthy (so_protected o)) then JErr (JDecode "missing protected")
   else if negb (otruthy (so_signature o)) then JErr (JDecode "missing signature")
   else match extract_header (oval (so_protected o)) with
   | JErr e => JErr e
   | JOk protected =>
+      match crit_check private protected with
+      | Some e => JErr e
+      | None =>
       if py_truthy (so_header o) && negb (match so_header o with PDict _ => true | _ => false end)
       then JErr (JDecode "invalid header")
       else
@@ -175,26 +188,27 @@ Definition validate_json_jws (allow : option (list string)) (payload_segment : s
             | JOk sg => JOk (h, verify alg k (signing_input (oval (so_protected o)) payload_segment) sg)
             end
         end
+      end
   end.
 
 (* deserialize_json on {"payload": .., "signatures": [...]} (general) or a single signature object (flattened):
    every signature is checked; any invalid one makes the whole object invalid *)
-Fixpoint validate_all (allow : option (list string)) (payload_segment : string) (l : list sigobj) (rawkey : pv)
+Fixpoint validate_all (allow private : option (list string)) (payload_segment : string) (l : list sigobj) (rawkey : pv)
   : jres (list hdict * bool) :=
   match l with
   | [] => JOk ([], true)
   | o :: r =>
-      match validate_json_jws allow payload_segment o rawkey with
+      match validate_json_jws allow private payload_segment o rawkey with
       | JErr e => JErr e
       | JOk (h, v) =>
-          match validate_all allow payload_segment r rawkey with
+          match validate_all allow private payload_segment r rawkey with
           | JErr e => JErr e
           | JOk (hs, vs) => JOk (h :: hs, v && vs)
           end
       end
   end.
 
-Definition deserialize_json (allow : option (list string)) (payload_segment : option string) (general : bool)
+Definition deserialize_json (allow private : option (list string)) (payload_segment : option string) (general : bool)
            (sigs : list sigobj) (rawkey : pv) : jres (list hdict * string) :=
   match payload_segment with
   | None => JErr (JDecode "missing payload")
@@ -202,7 +216,7 @@ Definition deserialize_json (allow : option (list string)) (payload_segment : op
       match extract_segment plseg "payload" with
       | JErr e => JErr e
       | JOk payload =>
-          match validate_all allow plseg sigs rawkey with
+          match validate_all allow private plseg sigs rawkey with
           | JErr e => JErr e
           | JOk (hs, true) => JOk (hs, payload)
           | JOk (_, false) => JErr JBadSignature
